@@ -4,14 +4,15 @@
 # Evidence and replays of these runs go to /root/scratch/mut-out (never into /verif/evidence).
 set -u
 PATCH="$(readlink -f "$1")"; shift
-M=/root/scratch/mut
-rm -rf "$M"; mkdir -p "$M" /root/scratch/mut-out
+M="${MUT_DIR:-/root/scratch/mut}"
+OUT="${MUT_DIR:-/root/scratch/mut}-out"
+rm -rf "$M"; mkdir -p "$M" "$OUT"
 cp -r /repo/vibrato "$M/vibrato"
 ( cd "$M" && patch -s -p1 < "$PATCH" ) || { echo "patch failed"; exit 3; }
 cd "$(dirname "$0")/.."
 for id in "$@"; do
-  VERIF_REPO="$M" VERIF_TARGET=/root/scratch/mut-target VERIF_EVIDENCE_DIR=/root/scratch/mut-out \
-    VERIF_REPLAY_OUT=/root/scratch/mut-out ./check "$id" "${MUT_TIER:-quick}" | grep -E "^(VIOLATION|SUMMARY|INCONCLUSIVE|REASON|KNOWN)" | cut -c1-400
+  VERIF_REPO="$M" VERIF_TARGET="$M-target" VERIF_EVIDENCE_DIR="$OUT" \
+    VERIF_REPLAY_OUT="$OUT" ./check "$id" "${MUT_TIER:-quick}" | grep -E "^(VIOLATION|SUMMARY|INCONCLUSIVE|REASON|KNOWN)" | cut -c1-400
   echo "== $id exit=${PIPESTATUS[0]}"
 done
 rm -rf "$M"
